@@ -157,7 +157,7 @@ theorem address_taken_expected :
        ("brotli", "encCounts", ["initPrefixCodeLUTs.Init()"]),
        ("brotli", "encMaxRLE", ["initPrefixCodeLUTs.Init()"]),
        ("brotli", "encWinBits", ["initPrefixCodeLUTs.Init()"]),
-       ("brotli", "errCorrupted", ["*Reader.readBlockHeader=", "*Reader.readCommands=", "*Reader.readContextMap=", "*Reader.readStreamHeader=", "*bitReader.readComplexPrefixCode=", "*bitReader.readSimplePrefixCode=", "*prefixDecoder.Init="]),
+       ("brotli", "errCorrupted", ["*Reader.readBlockHeader=", "*Reader.readBlockSwitch=", "*Reader.readCommands=", "*Reader.readContextMap=", "*Reader.readStreamHeader=", "*bitReader.readComplexPrefixCode=", "*bitReader.readSimplePrefixCode=", "*prefixDecoder.Init="]),
        ("brotli", "errInvalid", ["*bitReader.ReadSymbol="]),
        ("brotli", "maxRLERanges", ["*Reader.readContextMap="]),
        ("brotli", "simpleLens1", ["*bitReader.readSimplePrefixCode[:]"]),
